@@ -180,6 +180,114 @@ def run(ctx):
                        what='InMemoryTransaction::commit writes back its start snapshot: of two overlapping write transactions on one table '
                             'the later commit erases the earlier one (an acknowledged INSERT loses its rows, a DELETE is undone)')
 
+    commits_into_dropped_tables(ctx, prog)
+
+
+def commits_into_dropped_tables(ctx, prog):
+    R6 = 'C10-R6'
+    ctx.rule(R6, 'writers that take no table lock (INSERT) are ordered against DROP TABLE only by the manifest lock inside commit_changes, '
+                 'and replay requires every AddRowSet / AddDV of the log to belong to a table that exists at its end. So the commit point '
+                 'itself must refuse objects of a dropped table: commit_changes keeps the ids of the tables whose DropTable it logged '
+                 '(a field of VersionManagerInner fed from the DropTable arm) and tests the incoming operations against it, with an '
+                 'error exit, before the manifest append. [A replay that drops such objects would serve too and would need this rule '
+                 'to be extended.]')
+    CC = SEC + 'version_manager::VersionManager::commit_changes_with_custom_manifest::{closure#0}'
+    b = prog.body(CC)
+    if not ctx.anchor(R6, CC, b is not None):
+        return
+    ctx.functions_analysed.add(b.name)
+    appends = start_sites(prog, b, 'Manifest::append')
+    if not ctx.anchor(R6, 'commit_changes: Manifest::append', bool(appends)):
+        return
+    INNER = SEC + 'version_manager::VersionManagerInner::'
+
+    def inner_fields(l, depth=4):
+        out = set()
+        for x in origin_locals(b, l, depth=depth):
+            for bb, kind, payload in local_defs(b, x):
+                if kind == 'assign':
+                    out |= {f for pl in operand_places(payload) for f in pl_fields(pl) if f.startswith(INNER)}
+        return out
+
+    def from_drop_entry(l, hops=2):
+        """does l (or what was pushed into it) come out of the DropTable operation?"""
+        seen = origin_locals(b, l, depth=10)
+        for _ in range(hops):
+            more = set()
+            for c in b.calls:
+                if re.search(r'::(push|insert|extend|push_back)$', c.fn or '') and len(c.args) >= 2 and c.args[0]['k'] != 'const' \
+                        and origin_locals(b, c.args[0]['pl']['l'], depth=3) & seen:
+                    for a in c.args[1:]:
+                        if a['k'] != 'const':
+                            more |= origin_locals(b, a['pl']['l'], depth=10)
+            seen |= more
+        for x in seen:
+            for bb, kind, payload in local_defs(b, x):
+                if kind == 'assign' and any('as:DropTable' in pl['p'] or any('DropTableEntry::' in f for f in pl_fields(pl))
+                                            for pl in operand_places(payload)):
+                    return True
+        return False
+
+    errs = b.error_exit_blocks()
+    guards, fed = {}, {}
+    for c in b.calls:
+        if not c.args or c.args[0]['k'] == 'const':
+            continue
+        if re.search(r'::(contains|contains_key)$', c.fn or '') and not any(b.reaches(a, c.bb) for a in appends):
+            # the outcome of the test decides: one branch leaves with an error and never reaches the append, the other goes on
+            decides = False
+            for i, bl in enumerate(b.blocks):
+                t = bl['term']
+                if t['k'] == 'switch' and not bl['cleanup'] and t['discr']['k'] != 'const' \
+                        and c.dest['l'] in origin_locals(b, t['discr']['pl']['l'], depth=4):
+                    outs = [tgt for _, tgt in t['targets']] + [t['otherwise']]
+                    refuse = [o for o in outs if b.reachable_from([o]) & errs and not any(b.reaches(o, a) for a in appends)]
+                    go_on = [o for o in outs if any(b.reaches(o, a) for a in appends)]
+                    decides |= bool(refuse) and bool(go_on)
+            if decides:
+                for f in inner_fields(c.args[0]['pl']['l']):
+                    guards.setdefault(f, []).append(c.bb)
+        if re.search(r'::(insert|extend|push)$', c.fn or '') and len(c.args) >= 2:
+            for f in inner_fields(c.args[0]['pl']['l']):
+                if any(a['k'] != 'const' and from_drop_entry(a['pl']['l']) for a in c.args[1:]):
+                    fed.setdefault(f, []).append(c.bb)
+    both = sorted(set(guards) & set(fed))
+    ctx.ob(R6, 'commit_changes·refuses-objects-of-a-dropped-table', bool(both),
+           f'fields of VersionManagerInner fed from the DropTable operation: { {k.rsplit("::", 1)[-1]: v for k, v in fed.items()} }; tested '
+           f'with an error exit before the manifest append: { {k.rsplit("::", 1)[-1]: v for k, v in guards.items()} }',
+           [site(b, a) for a in appends],
+           what='a transaction that started before a DROP TABLE and commits after it is acknowledged and logs AddRowSet / AddDV behind the '
+                'DropTable record: replay finds objects of a table it does not know and the storage cannot be opened any more '
+                '(INSERT racing DROP TABLE)')
+
+    # second half: what a DROP TABLE retires is listed at the commit point as well
+    EPOCHOP = SEC + 'version_manager::EpochOp'
+    MOP = SEC + 'manifest::ManifestOperation'
+    arm = None
+    for i, bl in enumerate(b.blocks):
+        t = bl['term']
+        if t['k'] == 'switch' and t.get('adt') == EPOCHOP and not bl['cleanup']:
+            arms = {t['variants'][v]: tgt for v, tgt in t['targets'] if v in t.get('variants', {})}
+            if 'DropTable' in arms:
+                arm = b.reachable_from([arms['DropTable']], avoid={tgt for vv, tgt in arms.items() if vv != 'DropTable'} | {i})
+    if ctx.anchor(R6, 'commit_changes: arm of EpochOp::DropTable', arm is not None):
+        # the snapshot the commit publishes: the value inserted into `status`
+        published = set()
+        for c in b.calls:
+            if re.search(r'HashMap::<.*>::insert$', c.name or '') and c.args and c.args[0]['k'] != 'const' and \
+                    INNER + 'status' in inner_fields(c.args[0]['pl']['l']):
+                for a in c.args[1:]:
+                    if a['k'] != 'const':
+                        published |= origin_locals(b, a['pl']['l'], depth=6)
+        lists = [c.bb for c in b.calls if c.bb in arm and (c.fn or '').endswith('Snapshot::get_rowsets_of') and c.args
+                 and c.args[0]['k'] != 'const' and origin_locals(b, c.args[0]['pl']['l'], depth=4) & published]
+        retires = [bb for bb, st in b.aggregates(MOP, 'DeleteRowSet') if bb in arm]
+        ctx.ob(R6, 'commit_changes·DropTable-retires-the-latest-version', bool(lists) and bool(retires),
+               f'DropTable arm: Snapshot::get_rowsets_of on the snapshot being published at {lists}; DeleteRowSet records built at {retires}',
+               [site(b, x) for x in (lists or sorted(arm)[:1])],
+               what='DROP TABLE retires the row-sets of a version its caller pinned before the commit: an INSERT that commits in between leaves a '
+                    'row-set of the dropped table in the log (AddRowSet .. DropTable, no DeleteRowSet) and the storage cannot be opened any more')
+
 
 def guards_across_yield(prog):
     """(body, lock call, guard local, yield blocks reached while the guard is alive) for every blocking lock in a coroutine"""
